@@ -16,6 +16,9 @@ CONSTANTS
   BoundaryGuard = "none"
   UpdateArg = "kept"
   TrackArg = FALSE
+  FitEntry = "recompile"
+  FileRoute = "as_api"
+  Files <- MCNoFiles
   ModeCalls <- MCModeCalls
   InvalidModes <- MCInvalidOne
   ObsParams <- MCObsParams
